@@ -427,6 +427,13 @@ func (g *Gen) one(t uint32, height uint32) ([]Cand, bool) {
 		if g.Unreg[u] {
 			return []Cand{g.cand(g.B.Register(k, fx.Profile(k, k.Addr, true, "again"), params.MinCandidateDeposit, exp), "register-again", "discard")}, true
 		}
+		if !g.Cands[u] && g.R.Chance(1, 6) {
+			// a first registration whose profile says "not a candidate": the deposit is taken and counts as votes, but the
+			// account is not a registered candidate
+			dep := new(big.Int).Add(params.MinCandidateDeposit, fx.LEMO(int64(g.R.Intn(900))))
+			g.Unreg[u] = true
+			return []Cand{g.cand(g.B.Register(k, fx.Profile(k, g.income(u), false, "not a candidate"), dep, exp), "register-as-non-candidate", "any")}, true
+		}
 		if !g.Cands[u] {
 			dep := new(big.Int).Add(params.MinCandidateDeposit, fx.LEMO(int64(g.R.Intn(500))))
 			g.Cands[u] = true
